@@ -41,7 +41,8 @@ class BaseMode:
         self.samples = []
 
     def key(self, label, key):
-        return key if key is not None else f"{self.key_prefix}{label.split('[')[0]}"
+        k = key if key is not None else f"{self.key_prefix}{label.split('[')[0]}"
+        return k.replace(" ", "_")
 
     def check(self, cond, label, key=None, detail=""):
         """cond: bool or SymBool"""
